@@ -434,6 +434,7 @@ func (db *DB) capWALAge(wal *wal.WAL, stop <-chan interface{}) {
 		case <-stop:
 			return
 		default:
+			vhook("wal.cap")
 			db.waitForBackupToFinish(stop)
 			err := wal.TruncateToSize(int64(db.opts.MaxWALSize))
 			if err != nil {
